@@ -316,38 +316,52 @@ def model_compare(ops, lines, outcome, margs):
 
 # ------------------------------------------------------------------ known-defect triggers (what the generator avoids)
 def triggers(ops):
-    """which known-defect triggers a history contains (a conservative over-approximation of 'connectivity cached')"""
-    ref, cached, out = Ref(), False, set()
+    """which known-defect triggers a history contains.  'per-slack-cached' = cg_poly_elements_read while the connectivity
+    node is cached AND larger than the elements need; which path a variable-size write takes (in place / in memory) is
+    tracked from sizes alone -- this only steers the generator and the shrinker, never a verdict."""
+    ref, cached, dim, out = Ref(), False, 0, set()
+
+    def total():
+        return sum(len(x) for x in ref.sec["elems"] if x is not None)
     for op in ops:
         k, sec = op[0], ref.sec
-        if sec is not None and k in ("epw", "egw", "ppw", "pgw"):
-            s, e = (op[1], op[2]) if k in ("epw", "ppw") else (op[2], op[3])
-            mt = op[1] if k in ("egw", "pgw") else 8
-            f, l = sec["first"], ref.last()
-            extends = s < f or e > l
-            if extends or cached or k in ("ppw", "pgw"):
+        if sec is not None and not is_fixed(sec["type"]):
+            if k in ("ppw", "pgw"):
+                s, e, new = (op[1], op[2], op[3]) if k == "ppw" else (op[2], op[3], op[4])
+                f, l = sec["first"], ref.last()
+                inplace = False
+                if s <= e and f <= s and e <= l and not cached:
+                    ssz = sum(len(x) for x in sec["elems"][s - f:e - f + 1])
+                    m = sum(len(x) for x in new)
+                    inplace = ssz == m or total() + m - ssz <= dim
+                ref.apply(op)
+                if s <= e and not inplace:
+                    cached, dim = True, total()
+                continue
+            if k == "ppr" and sec["dt"] == 4 and op[1] <= op[2] and sec["first"] <= op[1] and op[2] <= ref.last():
                 cached = True
-        if sec is not None and k in ("epr", "ppr") and sec["dt"] == 4:
-            cached = True
-        if sec is not None and k == "per" and sec["dt"] == 4 and cached:
-            out.add("per-i4-cached")
-        if k in ("secw", "psecw", "secpw", "secgw", "reopen"):
+            if k == "per" and cached and dim > total():
+                out.add("per-slack-cached")
+        if k == "reopen":
             cached = False
         ref.apply(op)
+        if k in ("psecw", "secpw", "secgw") and ref.sec is not None and not is_fixed(ref.sec["type"]):
+            cached = False
+            dim = op[5] if k == "secgw" else total()
     return out
 
 
 PROBES = [
     # (finding key, name, ops) -- defects still present in /repo; the repaired ones are regression histories in corpus/C10
-    ("poly-read-fails-i4-cached", "cg_poly_elements_read on an I4-stored NGON_n section once connectivity is cached",
-     [("secgw", 22, 4, 1, 3, 6), ("ppw", 2, 2, [[1, 2, 3]]), ("per", 0), ("reopen",), ("per", 0)]),
-    ("poly-read-fails-i4-cached", "cg_poly_elements_read on an I4-stored MIXED section after an in-place shrink",
+    ("poly-read-fails-reserved-slack-cached",
+     "cg_poly_elements_read on an NGON_n section with space reserved by cg_section_general_write, once the node is cached",
+     [("secgw", 22, 4, 1, 2, 14), ("ppr", 1, 2, 0), ("per", 0), ("reopen",), ("per", 0)]),
+    ("poly-read-fails-reserved-slack-cached",
+     "cg_poly_elements_read on a MIXED section after an in-place shrink, once the node is cached",
      [("secgw", 20, 4, 1, 2, 9), ("ppw", 1, 2, [[5, 1, 2, 3], [7, 4, 5, 6, 7]]), ("ppw", 2, 2, [[5, 8, 9, 10]]), ("per", 0),
       ("ppr", 1, 1, 0), ("per", 0)]),
-    ("poly-read-fails-i4-cached", "cg_poly_elements_read on an I4-stored NGON_n section with reserved space once cached",
-     [("secgw", 22, 4, 1, 2, 14), ("ppr", 1, 2, 0), ("per", 0), ("reopen",), ("per", 0)]),
 ]
-KEY_TRIGGER = {"poly-read-fails-i4-cached": "per-i4-cached"}
+KEY_TRIGGER = {"poly-read-fails-reserved-slack-cached": "per-slack-cached"}
 
 
 # ------------------------------------------------------------------ generator
@@ -439,7 +453,7 @@ def gen_history(rng, avoid, big=False):
         wantp = 1 if rng.random() < 0.6 else 0
         if rng.random() < 0.5:
             if poly:
-                if not (stored4 and cached[0] and "per-i4-cached" in avoid):
+                if not ("per-slack-cached" in avoid and "per-slack-cached" in triggers(ops + r + [("per", wantp)])):
                     r.append(("per", wantp))
             else:
                 r.append(("er", wantp))
@@ -509,7 +523,8 @@ def gen_history(rng, avoid, big=False):
     cached[0] = False
     feat.add("reopen")
     emit(("info",))
-    emit(("per" if poly else "er", 1))
+    if not (poly and "per-slack-cached" in avoid and "per-slack-cached" in triggers(ops + [("per", 1)])):
+        emit(("per" if poly else "er", 1))
     f, l = ref.sec["first"], ref.last()
     a = rng.randint(f, l)
     emit(("ppr" if poly else "epr", a, rng.randint(a, l), 1))
